@@ -9,16 +9,17 @@ CONSTANTS MaxAn, MaxNs, MaxAr, Shard, NShards
 
 VARIABLE v
 
-Shapes == 1..6      \* 1: A a.example.org.  2: NS example.org. -> ns1.example.org.  3: TXT 200 octets
+Shapes == 1..7      \* 1: A a.example.org.  2: NS example.org. -> ns1.example.org.  3: TXT 200 octets
                     \* 4: TXT 250 octets, unrelated owner  5: MX with a long unshared exchange name
                     \* 6: TXT of 3 x 200 octets under the question's zone: alone it exceeds 512, and its owner compresses
+                    \* 7: RRSIG of about 300 octets whose signer name (not compressible) is a suffix of names seen before
 Sec(mx) == UNION { [1..k -> Shapes] : k \in 0..mx }
 Sel(n) == { [kind |-> "abs", v |-> x, d |-> 0] : x \in {0, 511, 512, 513, 65535} }
           \cup { [kind |-> "prefix", v |-> k, d |-> d] : k \in 0..n, d \in {-1, 0, 1} }    \* compressed length of the first k records + OPT
           \cup { [kind |-> "ulen", v |-> 0, d |-> d] : d \in {-1, 0, 1} }                  \* uncompressed length of the whole reply
 
 \* a unique index per case (mixed radix), so that shards are uniform samples
-Num(q) == IF Len(q) = 0 THEN 0 ELSE IF Len(q) = 1 THEN q[1] ELSE 7 + q[1] + 7 * (q[2] - 1)
+Num(q) == IF Len(q) = 0 THEN 0 ELSE IF Len(q) = 1 THEN q[1] ELSE 8 + q[1] + 8 * (q[2] - 1)
 SelIdx(x) == CASE x.kind = "abs" -> (CASE x.v = 0 -> 0 [] x.v = 511 -> 1 [] x.v = 512 -> 2 [] x.v = 513 -> 3 [] OTHER -> 4)
                [] x.kind = "prefix" -> 5 + 3 * x.v + (x.d + 1)
                [] OTHER -> 40 + (x.d + 1)
@@ -27,8 +28,8 @@ B2N(b) == IF b THEN 1 ELSE 0
 \* the (answer, authority) pair selects on Shard % K1, the rest on (Shard \div K1) % K2, NShards = K1 * K2.
 K1 == 43
 K2 == NShards \div K1
-Outer(an, ns) == (Num(an) + 57 * Num(ns)) % K1
-Inner(c) == (Num(c.ar) + 57 * (c.opt + 4 * (c.optpos + 3 * (B2N(c.tc) + 2 * (B2N(c.compress) + 2 * (c.q + 5 * SelIdx(c.sel))))))) % K2
+Outer(an, ns) == (Num(an) + 73 * Num(ns)) % K1
+Inner(c) == (Num(c.ar) + 73 * (c.opt + 4 * (c.optpos + 3 * (B2N(c.tc) + 2 * (B2N(c.compress) + 2 * (c.q + 5 * SelIdx(c.sel))))))) % K2
 
 \* q: question section 0 = one ordinary question, 1 = none, 2 = two questions, 3 = one question of 181 octets, 4 = one of 211 octets
 \* opt: 0 none, 1 bare, 2 with two options, 3 with a 300-octet padding option (with q = 3 header+question+OPT reach 512)
